@@ -302,6 +302,24 @@ Theorem C08_spec_bearing_hed_bearing : forall sc name v,
 Proof. exact spec_bearing_hed_bearing. Qed.
 Print Assumptions C08_spec_bearing_hed_bearing.
 
+(* Definition gathering (Sidecar.extract_definitions, the list every V_* of
+   the string phase receives as [ds]): the model hands the string-level
+   validators EVERY string of EVERY HED-bearing entry, in document order --
+   no entry is skipped by a pre-filter; for a struct_ok sidecar that is all
+   its strings.  Whether a string holds a definition (in whatever letter case
+   the tag names are written) is decided inside the abstract V_defs, i.e. the
+   letter-case insensitivity itself is TESTED only (letter case is a dimension
+   of the rule-abiding and definition-bearing streams of the harness). *)
+Theorem C08_definitions_from_every_string : forall sc,
+  exists bhs, basic_strings true sc = Ok bhs /\ concat (map (map snd) bhs) = bearing_strings sc.
+Proof. exact now_definitions_from_every_string. Qed.
+Print Assumptions C08_definitions_from_every_string.
+
+Theorem C08_bearing_strings_struct_ok : forall sc,
+  struct_ok sc = true -> bearing_strings sc = doc_strings sc.
+Proof. exact bearing_strings_struct_ok. Qed.
+Print Assumptions C08_bearing_strings_struct_ok.
+
 (* The validator's brace scan reports nothing exactly for balanced,
    un-nested braces (all strings). *)
 Theorem C08_braces_spec : forall s : str,
